@@ -452,10 +452,11 @@ Proof. intros H. exists [last p []]. now apply app_removelast_last. Qed.
 Lemma pref_trans (a b c : path) : pref a b -> pref b c -> pref a c.
 Proof. intros [s ->] [t ->]. exists (s ++ t). now rewrite app_assoc. Qed.
 
-Lemma removelast_neq {A} (p : list A) : p <> [] -> removelast p <> p.
+Lemma length_removelast {A} (p : list A) : p <> [] -> length p = S (length (removelast p)).
 Proof.
-  intros H E. apply (f_equal (@length _)) in E.
-  rewrite (app_removelast_last (last p p) H) in E at 2. rewrite app_length in E. cbn in E. lia.
+  intros H. destruct p as [|a p']; [congruence|].
+  pose proof (app_removelast_last a H) as HL. apply (f_equal (@length _)) in HL.
+  rewrite app_length in HL. cbn [length] in HL. cbn [length]. lia.
 Qed.
 
 (* one step of the loop on a well-formed entry *)
@@ -482,15 +483,13 @@ Proof.
       - eapply pref_trans; [exact Hq|]. now apply pref_removelast.
       - intros ->. destruct Hq as [s Hs]. unfold parent in Hs.
         apply (f_equal (@length _)) in Hs. rewrite app_length in Hs.
-        rewrite (app_removelast_last (last (D ++ r) []) HPne) in Hs at 1.
-        rewrite !app_length in Hs. cbn in Hs. lia. }
+        pose proof (length_removelast _ HPne). lia. }
     rewrite Em.
     assert (Hnone : lookup fs1 (D ++ r) = None).
     { destruct (Hch (D ++ r)) as [E | [_ [_ [Hq _]]]]; [rewrite E; now apply Hb|].
       exfalso. destruct Hq as [s Hs]. unfold parent in Hs.
       apply (f_equal (@length _)) in Hs. rewrite app_length in Hs.
-      rewrite (app_removelast_last (last (D ++ r) []) HPne) in Hs at 2.
-      rewrite !app_length in Hs. cbn in Hs. lia. }
+      pose proof (length_removelast _ HPne). lia. }
     unfold write_file. destruct (D ++ r) as [|a p] eqn:EP; [congruence|]. rewrite <- EP in *.
     rewrite (Hdirs _ (pref_refl _)), Hnone.
     exists (set fs1 (D ++ r) (File (w_data w))). split; [reflexivity|]. split; [now apply lookup_set_same|].
@@ -553,10 +552,10 @@ Qed.
 Lemma pref_split (q D r : path) : pref q (D ++ r) -> (exists k, q = firstn k D) \/ sunder D q.
 Proof.
   intros [s Hs]. symmetry in Hs. apply app_eq_app in Hs as [l [[E1 E2] | [E1 E2]]].
-  - left. exists (length q). subst D. rewrite firstn_app, firstn_all, Nat.sub_diag. cbn. now rewrite app_nil_r.
   - destruct l as [|x l].
     + left. exists (length D). rewrite app_nil_r in E1. subst q. now rewrite firstn_all.
     + right. exists (x :: l). split; [discriminate | exact E1].
+  - left. exists (length q). rewrite E1. rewrite firstn_app, firstn_all, Nat.sub_diag. cbn. now rewrite app_nil_r.
 Qed.
 
 Lemma empty_dest_inv D fs ws : dest_exists fs D -> (forall q, sunder D q -> lookup fs q = None) ->
